@@ -213,8 +213,10 @@ def check(c):
     c.ob('C10.poll-flag', f'{cb.fq} :: flag = FLAG_POLLED', okf,
          c.where(cb.node, cb), '')
     pms = c.calls(cb, 'process_message')
+    # (8 today; a clean-up may merge the arms into one call, so the floor
+    # only guards against vacuity -- the rule is universal over the sites)
     c.floor('C10.poll-flag', 'process_message in the poll callback',
-            len(pms), 8)
+            len(pms), 1)
     for n in pms:
         args = [norm(a) for a in n.args]
         ok = len(args) >= 5 and args[4] in (
